@@ -196,14 +196,21 @@ def run(tier, seed):
                           signature=f"conc:{cap}:{reason}:{json.dumps(ev)}")
         if runs:
             chk.sample(dict(kind="concurrent execution", capacity=cap, trace=runs[len(runs) // 2][:20]))
+    # the wake-up protocol of the channel built on the queue: Channel.tla, every history of future polls replayed
+    import check_chan
+    check_chan.channel_part(chk, thorough, wd)
     chk.exhaustive = True
     chk.assumptions = TRUSTED + [
         "interleaving (sequentially consistent) semantics: the effect of weaker memory orderings is not decided here",
-        "the wake-up protocol of Sender::send / Receiver::recv (async-event, diatomic-waker) is exercised end to end by "
-        "the Bench checks (a lost wake-up stalls a run that the specification completes), not modelled at atomic level",
+        "the wake-up protocol of Sender::send / Receiver::recv is specified at the granularity of one poll of a future "
+        "(Channel.tla: async-event and diatomic-waker by their sequential contract, read from their sources) and replayed "
+        "by one thread; its concurrent interleavings are exercised end to end by the Bench checks (a lost wake-up stalls "
+        "a run that the specification completes), not enumerated",
     ]
     return chk.finish(rule="TLC explores every interleaving of the atomic steps of push/pop/release/close/len for the listed "
                            "instances (capacities 1-3, 2-3 producers); every sequential operation history up to the length "
                            "bound is replayed on the real queue and each result compared; executions of real producer and "
                            "consumer threads are recorded as start/end events and must be explainable by an interleaving "
-                           "of the specification's atomic steps")
+                           "of the specification's atomic steps; every history of send/receive future polls, drops and "
+                           "receiver drop up to the bound (Channel.tla) is replayed on the real channel with counting "
+                           "wakers and every result, wake-up count, received sequence, length and message count compared")
